@@ -27,7 +27,7 @@ REQUIRED = {"post:sample_hdi": 200, "cases:ties": 10, "cases:2d": 10, "cases:k_o
 
 def jobs(tier, seed):
     n_jobs = 16 if tier == "quick" else 32
-    n_cases = 160 if tier == "quick" else 1200
+    n_cases = 600 if tier == "quick" else 4000
     return [{"name": f"hdi-{j}", "seed": seed, "j": j, "n_cases": n_cases} for j in range(n_jobs)]
 
 
@@ -99,7 +99,9 @@ def oracle_1d(rec, raw, fraction, res, tag):
     # brute force: the shortest window between two sample values holding `count` points
     if 1 <= count <= n:
         best = float((s[count - 1:] - s[: n - count + 1]).min())
-        slack = 4 * np.spacing(max(abs(lo), abs(hi), 1e-300))
+        # window widths are computed in the dtype of the input: near-ties below that precision are not a defect
+        mag = max(abs(lo), abs(hi), 1e-300)
+        slack = 4 * (float(np.spacing(np.float32(mag))) if tag == "f32" else np.spacing(mag))
         rec.check(hi - lo <= best + slack, "not-shortest",
                   lambda: f"width {hi - lo!r} but a window holding {count} points has width {best!r}", case)
     return lo, hi
@@ -180,10 +182,12 @@ def run_job(job, rec):
 
         # permutation invariance (exact: the routine sorts a copy)
         perm = rng.permutation(n)
-        argp = raw[perm] if form != "int" else arg[perm]
+        argp = arg[perm] if isinstance(arg, np.ndarray) else [arg[i] for i in perm]   # same dtype / container as the original call
         resp = guarded(sample_hdi, argp, f)
         rec.check((not isinstance(resp, Raised)) and np.array_equal(np.asarray(resp, dtype=float), np.array([lo, hi])),
                   "order-dependent", lambda: f"reordered sample gave {resp}, original gave {(lo, hi)}", rec.context)
+        if form == "f32":
+            rec.count("f32_cases")
 
         # positive affine covariance, on float64 data
         if form in ("f64", "list"):
@@ -204,7 +208,7 @@ def run_job(job, rec):
             k = int(((s >= lo) & (s <= hi)).sum())
             k_min = int(Fraction(f) * n) + 1  # fewest points that reach the fraction
             unique_best = True
-            for m in {k, min(k_min, n)}:
+            for m in range(min(k_min, n), min(max(k, int(f * n) + 1), n) + 1):   # every window size the routine may have used
                 order = np.sort(s[m - 1:] - s[: n - m + 1])
                 if order.size > 1 and (order[1] - order[0]) * a <= 8 * tol:
                     unique_best = False
